@@ -757,6 +757,16 @@ func (h *verifC18RHist) judgeDomain(kind string, o *verifC18RObs, shape string, 
 		}
 	}
 	if o.t0.After(lastEnd.Add(verifC18RGuard)) {
+		allZero := true
+		for _, rc := range recs {
+			if rc.TTL != 0 {
+				allZero = false
+			}
+		}
+		if allZero {
+			// an answer with TTL 0 gives no knowledge that outlives the answer itself
+			h.count("answered_only_with_original_ttl_0_ip_judged")
+		}
 		wantIP("every-original-ttl-over")
 		return
 	}
@@ -855,7 +865,7 @@ func verifC18ReloadHistory(m *vk.Monitor, env *verifC18ReloadEnv, id int) {
 		if plans[i].long {
 			return []uint32{40, 90, 600}[r.IntN(3)]
 		}
-		return []uint32{1, 2, 2, 3}[r.IntN(4)]
+		return []uint32{1, 2, 2, 3, 0, 0}[r.IntN(6)]
 	}
 	resolveSome := func() (string, bool) {
 		i := r.IntN(nRes)
@@ -1031,5 +1041,5 @@ func verifC18ReloadHistories(m *vk.Monitor) {
 	for _, k := range verifC18RStepKinds {
 		m.Require("hist_" + k + "_domain_verified_name_judged")
 	}
-	m.Require("hist_wait_ttl_domain_ip_judged_every-original-ttl-over", "hist_gen_clone_restore_domain_ip_judged_never-answered")
+	m.Require("hist_wait_ttl_domain_ip_judged_every-original-ttl-over", "hist_gen_clone_restore_domain_ip_judged_never-answered", "answered_only_with_original_ttl_0_ip_judged")
 }
